@@ -162,18 +162,20 @@ func main() {
 			teAsg.PostRoot = new(big.Int).Mod(&p.PostRoot, r)
 			te := test.IsSolved(circuit, teAsg, r)
 			var rc error
+			res := ""
 			if ci != nil {
-				rc = r1csx.Solve(ci, asg(), overrides)
-				if overrides != nil {
-					// the forged run is the one that matters: the honest engines see a wrong public input
-					te = rc
-					if pert == "forge-honest-hash" {
-						te = rc
-					}
+				// satisfiability = EXISTS hints: the honest solver decides it; a forged hint may only
+				// ever turn an unsatisfiable instance into an accepted one (that would be unsoundness)
+				rc = r1csx.Solve(ci, asg(), nil)
+				if overrides != nil && rc != nil && r1csx.Solve(ci, asg(), overrides) == nil {
+					res = "unsound:accepted-with-forged-decomposition"
 				}
 			}
+			if res == "" {
+				res = verdict(te, rc, ci != nil)
+			}
 			stat["ins:"+mut+"/"+pert]++
-			emit(fmt.Sprintf("prove\tinsertion\t%d\t%d\t%s", *d, *b, batchgen.CanonInsertion(p)), verdict(te, rc, ci != nil))
+			emit(fmt.Sprintf("prove\tinsertion\t%d\t%d\t%s", *d, *b, batchgen.CanonInsertion(p)), res)
 		}
 		// ---------------- deletion
 		q, mutd := batchgen.Deletion(g, *d, *b)
@@ -238,14 +240,18 @@ func main() {
 			teAsg.PostRoot = new(big.Int).Mod(&q.PostRoot, r)
 			te := test.IsSolved(circuit, teAsg, r)
 			var rc error
+			res := ""
 			if cd != nil {
-				rc = r1csx.Solve(cd, asg(), overrides)
-				if overrides != nil {
-					te = rc
+				rc = r1csx.Solve(cd, asg(), nil)
+				if overrides != nil && rc != nil && r1csx.Solve(cd, asg(), overrides) == nil {
+					res = "unsound:accepted-with-forged-decomposition"
 				}
 			}
+			if res == "" {
+				res = verdict(te, rc, cd != nil)
+			}
 			stat["del:"+mutd+"/"+pert]++
-			emit(fmt.Sprintf("prove\tdeletion\t%d\t%d\t%s", *d, *b, batchgen.CanonDeletion(q)), verdict(te, rc, cd != nil))
+			emit(fmt.Sprintf("prove\tdeletion\t%d\t%d\t%s", *d, *b, batchgen.CanonDeletion(q)), res)
 		}
 	}
 	ks := make([]string, 0, len(stat))
